@@ -49,6 +49,16 @@ THEOREMS = [
     'Nb.C02.refusal_dtype_arg',
     'Nb.C02.make_writer_of_caps',
     'Nb.C02.Gen.caps_table_ok',         # over the capability flags REGENERATED from /repo by regen()
+    # end to end (from `save … = .ok (s, b, raws)` to every element of raws) and audit items
+    'Nb.C02.save_float_element',
+    'Nb.C02.save_error_bound_nifti',
+    'Nb.C02.save_error_bound_spm',
+    'Nb.C02.error_bound_const',
+    'Nb.C02.nan_fit_ideal_noop',
+    'Nb.C02.stays_in_range_sharp',
+    'Nb.C02.save_header_accepts',
+    'Nb.C02.nan_fill_bound',
+    'Nb.C02.iu2iu_exact_int',
 ]
 ASSUMPTIONS = [
     'hand-written Lean model of arraywriters / array_to_file / shared_range / header refusals (Model/C02.lean) in exact '
@@ -62,8 +72,25 @@ ASSUMPTIONS = [
     'casting.floor_exact / shared_range are modelled on exact integers; Generated/C02Types.lean re-checks the model '
     'against the values nibabel computes now for every (float32/float64, integer type) pair',
     'oracle reference: fractions.Fraction arithmetic on the stored slope / intercept and the raw integers read back',
+    'AnalyzeImage.to_file_map (dtype= save argument, consumable header fields, try/finally restore, caller-fixed '
+    'scaling) is modelled (toFileMap / saveSeq) and compared with the real code on the tfm-* streams through '
+    'to_file_map / to_filename / nib.save / to_bytes / to_stream; the NIfTI wrapper (dtype aliases), nib.save class '
+    'conversion, byte order and file I/O are NOT modelled — they are exercised by the streams and must be invisible; a '
+    'save step with a FLOAT on-disk type inside a history is not modelled (its result is not observed, the header after '
+    'the whole history is)',
+    'caller-fixed scaling (slope / inter preset in the header): nibabel documents "array written as it is"; the oracle '
+    'there checks no wrap-around / no undefined cast / stored scaling = preset, not the half-step bound',
 ]
-RULE = ('layouts: about half of all save cases are 3-D arrays with 2-5 memory slabs in C or F order (values in memory order; '
+RULE = ('tfm-* streams: ~55% of all save cases are re-run as a to_file_map HISTORY on one image: on-disk type chosen by '
+        'the dtype= SAVE ARGUMENT (header holding the array dtype = fresh image, or any other supported type) or by the '
+        'header; class variants Nifti1Image / Nifti1Pair / Nifti2Image / Nifti2Pair / Spm99 / Spm2 / Analyze; image built '
+        'fresh, with a header, with the constructor dtype=, with set_data_dtype, or LOADED from a file (array proxy); '
+        'saved through to_file_map / to_filename / nib.save (incl. conversion by extension, .gz) / to_bytes / to_stream; '
+        'big-endian headers; dtype= spelled as dtype object / name / scalar type / byte-swapped dtype; image array a '
+        'non-contiguous view of a larger array; 0-2 earlier saves (any dtype= incl. float types, failing or not) on the same image; '
+        'slope / inter preset in the header (caller-fixed scaling); observable = stored slope / inter, raw integers, '
+        'error kind AND the header (dtype, slope, inter) after the history; '
+        'layouts: about half of all save cases are 3-D arrays with 2-5 memory slabs in C or F order (values in memory order; '
         'NaN/inf placement varied over slabs, first non-finite value in a later slab, extremes before/in/after it); '
         'spec-fr stream: volumeutils.finite_range itself on such layouts vs the model and an exact reference; '
         'decisions stream: every general-stream NIfTI/SPM case whose writer decisions are not within rounding distance of '
@@ -349,7 +376,7 @@ def opt_fr(x):
 
 
 def mk_tfm(cls, kls, in_name, hd, sl, it, args, valstrs, stream, exact, how='tfm', mk='hdr', bo='<', ext=None,
-           shape=None, order='C'):
+           shape=None, order='C', sp='dtype', view=False):
     """`img.to_file_map(dtype=arg)` HISTORY on one image of class `kls` (model class `cls`): the image is built the way
     `mk` says with header data type `hd` (a dtype name) and preset header slope / inter `sl` / `it` (None = NaN, the
     normal state), then saved once per element of `args` (None = no dtype argument, else the `dtype=` argument); the
@@ -371,11 +398,12 @@ def mk_tfm(cls, kls, in_name, hd, sl, it, args, valstrs, stream, exact, how='tfm
                 + ';'.join('_' if a is None else dt_token(a) for a in args) + ' ' + line_vals(vals))
     data = {'op': 'tfm', 'cls': cls, 'kls': kls, 'in': in_name, 'hd': hd, 'sl': None if sl is None else fr_str(Fr(sl)),
             'it': None if it is None else fr_str(Fr(it)), 'args': list(args), 'out': out_name, 'vals': list(valstrs),
-            'how': how, 'mk': mk, 'bo': bo, 'ext': ext, 'stream': stream, 'exact': bool(exact), 'lvl': lvl}
+            'how': how, 'mk': mk, 'bo': bo, 'ext': ext, 'sp': sp, 'view': bool(view), 'stream': stream,
+            'exact': bool(exact), 'lvl': lvl}
     if shape is not None:
         data['shape'], data['order'] = list(shape), order
     need = preset or scaling_needed(in_name, out_name, vals)
-    key = (('tfm', cls, kls, in_name, hd, data['sl'], data['it'], tuple(args), how, mk, bo, tuple(valstrs),
+    key = (('tfm', cls, kls, in_name, hd, data['sl'], data['it'], tuple(args), how, mk, bo, sp, view, tuple(valstrs),
             tuple(shape or ()), order) if need else None)
     return Case(line, data, key, stream)
 
@@ -417,7 +445,7 @@ def case_from_data(d):
         return mk_tfm(d['cls'], d['kls'], d['in'], d['hd'], None if d['sl'] is None else Fr(d['sl']),
                       None if d['it'] is None else Fr(d['it']), d['args'], d['vals'], d.get('stream', 'corpus'),
                       d.get('exact', False), d.get('how', 'tfm'), d.get('mk', 'hdr'), d.get('bo', '<'), d.get('ext'),
-                      d.get('shape'), d.get('order', 'C'))
+                      d.get('shape'), d.get('order', 'C'), d.get('sp', 'dtype'), d.get('view', False))
     if d['op'] == 'fr':
         return mk_fr(d['in'], d['vals'], d.get('shape'), d.get('order', 'C'))
     if d['op'] == 'a2f':
@@ -571,6 +599,21 @@ def run_tfm(d, case):
     import nibabel as nib
     klass = getattr(nib, d['kls'])
     data = laid_out(d)
+    if d.get('view'):
+        # the image array is a NON-CONTIGUOUS view: every other plane of a larger array whose other planes hold
+        # extreme values (they must not influence anything)
+        ax = 0 if (d.get('order', 'C') == 'C' or not d.get('shape')) else data.ndim - 1
+        shp = list(data.shape)
+        shp[ax] *= 2
+        big = np.empty(shp, dtype=data.dtype, order=d.get('order', 'C') if d.get('shape') else 'C')
+        junk = np.finfo(data.dtype).max if data.dtype.kind == 'f' else np.iinfo(data.dtype).max
+        big[...] = junk
+        sl_ = [slice(None)] * data.ndim
+        sl_[ax] = slice(0, None, 2)
+        big[tuple(sl_)] = data
+        data = big[tuple(sl_)]
+        if data.flags.c_contiguous and data.flags.f_contiguous and data.size > 1:
+            raise HarnessError('view is contiguous')
     with warnings.catch_warnings():
         warnings.simplefilter('ignore')
         img = build_image(d, klass, data)
@@ -580,7 +623,9 @@ def run_tfm(d, case):
             except Exception:
                 pass
     a = d['args'][-1]
-    kw = {} if a is None else {'dtype': np.dtype(a) if len(d['vals']) % 2 else a}    # dtype object / dtype name
+    sp = d.get('sp', 'dtype')          # spelling of the dtype= argument
+    kw = {} if a is None else {'dtype': np.dtype(a) if sp == 'dtype' else a if sp == 'name' else np.dtype(a).type
+                               if sp == 'type' else np.dtype(a).newbyteorder('S')}
     how = d.get('how', 'tfm')
     with tempfile.TemporaryDirectory() if how in ('fn', 'nibsave', 'conv') else io.BytesIO() as tmp, \
             warnings.catch_warnings(record=True) as wl:
@@ -1039,6 +1084,10 @@ def shrink_candidates(case):
             simp.append(dict(d, bo='<'))
         if d.get('mk') in ('loaded', 'set', 'ctor'):
             simp.append(dict(d, mk='fresh' if d['hd'] == d['in'] and d['in'] not in ('int64', 'uint64') else 'hdr'))
+        if d.get('sp', 'dtype') != 'dtype':
+            simp.append(dict(d, sp='dtype'))
+        if d.get('view'):
+            simp.append(dict(d, view=False))
         if d['kls'] != KLS[d['cls']][0]:
             simp.append(dict(d, kls=KLS[d['cls']][0], ext=None))
         for d2 in simp:
@@ -1630,10 +1679,12 @@ def tfm_variant(rng, c):
     how = rng.choice(hows)
     ext = rng.choice(KLS_EXT[kls]) if how in ('fn', 'nibsave') else None
     bo = '>' if (mk == 'hdr' and rng.random() < 0.3) else '<'
+    sp = rng.choice(['dtype', 'dtype', 'name', 'type', 'swapped'])
+    view = mk != 'loaded' and rng.random() < 0.25
     exact = bool(d.get('exact')) and mode != 'preset'
     stream = 'tfm-preset' if mode == 'preset' else 'tfm-exact' if exact else 'tfm-general'
     t = mk_tfm(cls, kls, in_name, hd, sl, it, args, d['vals'], stream, exact, how, mk, bo, ext, d.get('shape'),
-               d.get('order', 'C'))
+               d.get('order', 'C'), sp, view)
     if t.data['lvl'] == 'dec':
         t.stream = t.data['stream'] = 'tfm-decisions'
     return t
@@ -1654,7 +1705,7 @@ def cases(rng, tier):
     out += saves
     # the same inputs through the `dtype=` save argument / class variants / save APIs / histories / preset scaling
     rng2 = __import__('random').Random(rng.random())     # own stream: the older streams keep their draws
-    out += [t for t in (tfm_variant(rng2, c) for c in saves if rng2.random() < 0.42) if t is not None]
+    out += [t for t in (tfm_variant(rng2, c) for c in saves if rng2.random() < 0.55) if t is not None]
     out += gen_fr(rng, [c for c in saves if rng.random() < 0.3])
     out += gen_a2f(rng, 600 * n)
     return out
